@@ -69,28 +69,28 @@ Proof.
   apply G. intros c Ic. apply (proj1 (ssort_in _ _)) in Ic. exact Ic.
 Qed.
 
-Theorem sort_headers_ord_returns ord : Returns (sort_headers_ord ord hs).
+Theorem sort_headers_ord_raw_returns ord : Returns (sort_headers_ord_raw ord hs).
 Proof.
-  unfold sort_headers_ord. apply (sc_returns _ 0); [|lia|lia].
+  unfold sort_headers_ord_raw. apply (sc_returns _ 0); [|lia|lia].
   intros c Ic K. apply (proj1 (ssort_in _ _)) in Ic. apply filter_In in Ic. destruct Ic as [_ E]. apply String.eqb_eq in E.
   split; [|intros; lia]. apply lvl0; [exact E|]. destruct K as (h & I & <-). apply NODOT, I.
 Qed.
 End Term.
 
-Theorem sort_headers_returns hs : (forall h, In h hs -> clean (h_name h) <> ".") -> Returns (sort_headers hs).
-Proof. intro H. apply sort_headers_ord_returns. exact H. Qed.
+(* before fix f716198 (hypothetical): safe on the lists without an entry that cleans to "." *)
+Theorem sort_headers_raw_returns hs : (forall h, In h hs -> clean (h_name h) <> ".") -> Returns (sort_headers_raw hs).
+Proof. intro H. apply sort_headers_ord_raw_returns. exact H. Qed.
 
-(* the repair of C15-F4: with the "." entries left out the recursion ends on every list *)
-Theorem sort_headers_fixed_returns hs : Returns (sort_headers_fixed hs).
-Proof.
-  apply sort_headers_returns. intros h I. apply filter_In in I. destruct I as [_ E].
-  unfold not_dot in E. apply negb_true_iff, String.eqb_neq in E. exact E.
-Qed.
-(* ... and the repair changes nothing on the lists the code handles today *)
-Lemma filter_all {A} (p : A -> bool) l : (forall x, In x l -> p x = true) -> filter p l = l.
-Proof. induction l as [|x l IH]; intro H; cbn [filter]; [reflexivity|]. rewrite (H x (or_introl eq_refl)), IH; [reflexivity|]. intros; apply H; right; assumption. Qed.
-Theorem sort_headers_fixed_same hs : (forall h, In h hs -> clean (h_name h) <> ".") -> sort_headers_fixed hs = sort_headers hs.
-Proof.
-  intro H. unfold sort_headers_fixed. rewrite filter_all; [reflexivity|]. intros h I. unfold not_dot.
-  apply negb_true_iff, String.eqb_neq, H, I.
-Qed.
+(* the code since fix f716198: the "." entries are left out, the recursion ends on EVERY list,
+   for every order in which Go ranges over the map *)
+Lemma filtered_not_dot hs h : In h (filter not_dot hs) -> clean (h_name h) <> ".".
+Proof. intro I. apply filter_In in I. destruct I as [_ E]. unfold not_dot in E. apply negb_true_iff, String.eqb_neq in E. exact E. Qed.
+Theorem sort_headers_ord_returns hs ord : Returns (sort_headers_ord ord hs).
+Proof. unfold sort_headers_ord. apply sort_headers_ord_raw_returns. intros h I. exact (filtered_not_dot hs h I). Qed.
+Theorem sort_headers_returns hs : Returns (sort_headers hs).
+Proof. unfold sort_headers. apply sort_headers_raw_returns. intros h I. exact (filtered_not_dot hs h I). Qed.
+(* ... and the fix changed nothing on the lists the code handled before it *)
+Theorem sort_headers_raw_same hs : (forall h, In h hs -> clean (h_name h) <> ".") -> sort_headers hs = sort_headers_raw hs.
+Proof. intro H. unfold sort_headers. rewrite (filter_not_dot_id hs H). reflexivity. Qed.
+Theorem sort_headers_ord_raw_same hs ord : (forall h, In h hs -> clean (h_name h) <> ".") -> sort_headers_ord ord hs = sort_headers_ord_raw ord hs.
+Proof. intro H. unfold sort_headers_ord. rewrite (filter_not_dot_id hs H). reflexivity. Qed.
